@@ -170,7 +170,11 @@ def expiredShards (now : Int) (eng : List EShard) (nm : List DurInfo) : List QIt
   l ++ expiredNil now l nm
 
 /-- the harness hands the service the result sorted by shard id (Go map order is random). -/
-def sortQ (q : List QItem) : List QItem := q.mergeSort fun a b => decide (a.sid ≤ b.sid)
+def insQ (a : QItem) : List QItem → List QItem
+  | [] => [a]
+  | b :: r => if a.sid ≤ b.sid then a :: b :: r else b :: insQ a r
+
+def sortQ (q : List QItem) : List QItem := q.foldr insQ []
 
 /-! ### service steps -/
 
